@@ -4,6 +4,8 @@ CONSTANTS
   Sandbox = {1, 2}
   MaxSend = 1
   RtDecodable = TRUE
+  Slow = {}
+  WaitGivesUp = FALSE
   MayExit = TRUE
   NFaultSteps = 2
 INVARIANTS C03_NoneLeftAttached C03_NoDup C03_NoLoss C04_NoRunBetweenCaptures C04_ListedOnce C04_SandboxOmitted
